@@ -43,11 +43,11 @@ PROPS['C08'] = dict(level='model_checking',
     H('v2_nest_two_joins', 'C08_scope_v2.cpp', ['h_nest0', 'h_join0', 'h_join1'], 24, final='h_final12', tier='thorough', timeout=3000, desc='one nest racing two joins'),
   ])
 
-PROPS['C19_wip'] = dict(level='model_checking',
+PROPS['C19'] = dict(level='model_checking',
   bounds='T=2 (runner = start + natural completion, stopper), K per harness; symbolic completion channel',
-  outside='create_basic_sender (recursive mutex + weak_ptr control blocks), more than one stopper',
+  outside='create_basic_sender (recursive mutex + weak_ptr control blocks), more than one stopper; detach_on_cancel with the real inplace_stop_source exceeds the engine (value-set growth of the ref-count word), see DESIGN',
   harnesses=[
-    H('detach_stop_vs_complete', 'C19_detach.cpp', ['h_run', 'h_stop_check'], 30, desc='detach_on_cancel: natural completion racing a stop request; receiver frees the op'),
+    H('canary_vs_watcher', 'C19_canary.cpp', ['h_watcher_side', 'h_canary_side'], 30, desc='canary destruction racing watcher guard/destruction; both objects freed right after their destructors'),
   ])
 
 def SEQ(name, src, fn, **kw):
